@@ -57,7 +57,9 @@ def run_c04(ctx):
     ctx.bounds["corpus"] = (f"{nfiles} vendored real-world files (7 languages, 14..250 lines): <= 10 token-safe boundaries per condition (every n-th safe line, offset = bounds#), any number of blank lines at each; "
                             "comments mode adds a comment-only line and whitespace-only lines above each boundary and a trailing comment after every line where the real lexer confirms it is token-safe")
     ctx.outside += ["corpus: simultaneous insertions at more than 10 boundaries; re-indentation of real files"]
-    return ctx.run_xh(jobs + jobs2 + jobs4)
+    # blank lines inserted at the very TOP of a file shift every reported line too: the file-level entry point on texts with leading blank / whitespace-only lines (C05/C06's harness)
+    jobs5 = [Job("c06.py", "h_analyze_history", {"which": "history", "fix_n": 1, "fix_e1": e1}, T, 60, tag=f"file-level positions (leading blank lines, CRLF), ext #{e1}", meta={"sigtag": "file-level", "twin": e1 == 0}) for e1 in range(7)]
+    return ctx.run_xh(jobs + jobs2 + jobs4 + jobs5)
 
 
 def run_c17(ctx):
@@ -67,6 +69,9 @@ def run_c17(ctx):
             if label.startswith("x-decl-"):
                 n += 1
                 jobs.append(Job("skel_h.py", "h_nocl", {"lang": lang, "tier": ctx.tier, "label": label, "mode": "nocl"}, 150 if ctx.quick() else 600, 40, tag=f"{lang}/{label}/nocl", meta={"tolerant": False, "twin": False}))
+    for lang in ("C", "Cpp", "Java", "JavaScript", "Python"):
+        n += 1
+        jobs.append(Job("skel_h.py", "h_nocl", {"lang": lang, "tier": ctx.tier, "label": "x-bom-two", "mode": "nocl"}, 150 if ctx.quick() else 600, 40, tag=f"{lang}/x-bom-two/nocl", meta={"tolerant": False, "twin": False}))
     ctx.bounds.update({"part 2 skeletons": f"{n} canonical programs (<= 3 functions; with nesting only the presence of the functions related to the marked one is prescribed)", "marker line": "any line >= 1 (solver variable), together with <= 10 unbounded line gaps"})
     ctx.assumptions += COMMON_ASSUME
     return ctx.run_xh(jobs)
